@@ -78,7 +78,15 @@ def _worker(task):
     if task["kind"] == "gen":
         items = [(s, None) for s in task["seeds"]]
     else:
-        items = [(None, sc) for sc in task["scenarios"]]
+        items = []
+        for sc in task["scenarios"]:
+            if sc.get("_expand"):
+                try:
+                    items += [(None, x) for x in eng.expand(sc)]
+                except Exception:
+                    out["errors"].append(traceback.format_exc()[-1500:])
+            else:
+                items.append((None, sc))
     det_every = task.get("det_every", 50)
     for idx, (seed, sc) in enumerate(items):
         try:
@@ -93,7 +101,9 @@ def _worker(task):
         except HarnessError as e:
             out["errors"].append(f"HarnessError: {e}")
             continue
-        except Exception:
+        except (KeyboardInterrupt, SystemExit):
+            raise
+        except BaseException:
             out["errors"].append(traceback.format_exc()[-1500:])
             continue
         out["n"] += 1
